@@ -100,8 +100,14 @@ def _norm_clo(s):
     return m.group(1) if m else s
 
 
-def call_closure(ex, clo, args, cont=None):
-    """Inline call of a closure value with positional arguments"""
+def call_closure(ex, clo, args, cont=None, st=None):
+    """Inline call of a closure value (or function item) with positional arguments"""
+    from .symex import FnItem
+    fi = ex.deref(clo)
+    if isinstance(fi, FnItem):
+        r = ex.call(st, None, fi.name, list(args))
+        if isinstance(r, Inline): r.cont = cont
+        return r
     f, c = closure_func(ex, clo)
     t0 = f.params[0][1].strip()
     cv = clo if isinstance(clo, Ptr) and (t0.startswith('&')) else (box(c) if t0.startswith('&') else c)
@@ -126,6 +132,13 @@ class Pipe:
         if not isinstance(v, Iter): raise Unsupported('iterator expected')
         return v
 
+    def _call(self, ex, st, clo, args):
+        """call a closure / function item for the current item; a modelled callee answers at once, a MIR body answers through step()"""
+        r = call_closure(ex, clo, args, cont=self, st=st)
+        if isinstance(r, Inline): return r
+        if isinstance(r, (Fork, Diverge)): raise Unsupported('forking model used as an iterator callback')
+        return self.step(ex, st, r)
+
     # ---- driving
     def start_item(self, ex, st):
         it = self.it()
@@ -148,16 +161,16 @@ class Pipe:
                 self.stage += 1; continue
             if kind == 'map':
                 self.await_kind = 'map'
-                return call_closure(ex, pay, [self.cur], cont=self)
+                return self._call(ex, st, pay, [self.cur])
             if kind == 'filter':
                 self.await_kind = 'filter'
-                return call_closure(ex, pay, [box(self.cur)], cont=self)
+                return self._call(ex, st, pay, [box(self.cur)])
             if kind == 'filter_map':
                 self.await_kind = 'filter_map'
-                return call_closure(ex, pay, [self.cur], cont=self)
+                return self._call(ex, st, pay, [self.cur])
             if kind == 'take_while':
                 self.await_kind = 'take_while'
-                return call_closure(ex, pay, [box(self.cur)], cont=self)
+                return self._call(ex, st, pay, [box(self.cur)])
             raise Unsupported('iterator stage ' + kind)
         return self.consume(ex, st)
 
@@ -208,13 +221,13 @@ class Pipe:
         if m in ('position', 'any', 'all', 'find'):
             self.await_kind = 'pred'
             arg = self.cur if m != 'find' else box(self.cur)
-            return call_closure(ex, self.data, [arg], cont=self)
+            return self._call(ex, st, self.data, [arg])
         if m == 'for_each':
             self.await_kind = 'each'
-            return call_closure(ex, self.data, [self.cur], cont=self)
+            return self._call(ex, st, self.data, [self.cur])
         if m == 'fold':
             self.await_kind = 'fold'
-            return call_closure(ex, self.data, [self.acc, self.cur], cont=self)
+            return self._call(ex, st, self.data, [self.acc, self.cur])
         raise Unsupported('iterator consumer ' + m)
 
     def consume_pred(self, ex, st, b):
